@@ -265,6 +265,10 @@ class TunnelCommunity(Community):
             self.endpoint.remove_listener(crypto_endpoint)
             crypto_endpoint.tunnel_community = None
 
+        # An anonymizing endpoint routes the traffic of other overlays through us: make it let go of us.
+        if isinstance(self.endpoint, TunnelEndpoint) and self.endpoint.tunnel_community is self:
+            self.endpoint.set_tunnel_community(None)
+
         await super().unload()
 
         # The removal tasks may have been cancelled by the task manager shutdown: release what they left behind.
